@@ -15,6 +15,18 @@ PROPS = {
                     "metamorphic stream only", "float literals: differential against strconv only",
                     "string-literal unescaping: differential only"],
     },
+    "C01": {
+        "gens": ["Recover"],
+        "lean": "Anko.Props.C01",
+        "streams": [{"name": "nopanic", "n_quick": 1500, "n_thorough": 60000, "model": False}],
+        "trusted": ["the specification of when Go's reflect operations panic (Raw.* in lean/Anko/Props/C01.lean)",
+                    "the extractor tools/cmd/extract/recover.go (go/ast: which calls count as panicking on behalf of the script, which scopes recover)",
+                    "process isolation of the harness: a child process per worker, a dead child = a fault of the host"],
+        "assumptions": ["memory and stack exhaustion (fatal 'out of memory', unbounded recursion, endless loops piling up defers) are outside the property and are classified, not reported",
+                        "environments: the bindings of tools/cmd/harness/nopanic.go richEnv (values of every script-constructible class + Go functions incl. panicking ones) and core.Import"],
+        "partial": ["completeness - that no OTHER operation of the interpreter can panic - is not a theorem: it is searched (whole-grammar generation, mutations, ~230 degenerate forms x 8 "
+                    "wrappers, other streams' no-panic oracles); the theorems cover the guard -> precondition implications of the modelled operations and the containment of the listed ones"],
+    },
     "C11": {
         "gens": [],
         "lean": "Anko.Props.C11",
@@ -233,6 +245,20 @@ MANIFEST_TEXT = {
         "note": "Trusted: Lean kernel; goyacc (LALR tables not modelled); the grammar extractor (regex over parser.go.y, closed shapes). Follows fix a4e6d85 (-0b literals).",
         "technique": "Lean 4 proof (precedence-climbing round trip by induction on trees; decide over regenerated table) + metamorphic parser correspondence",
         "design_ref": "DESIGN.md section 6 (C03)",
+    },
+    "C01": {
+        "text": "Machine-checked (Lean 4): (1) for every operand value, the interpreter's guards imply the precondition of the raw reflect operation "
+                "performed next - index (after tryToInt + range check), 2/3-index slicing (bounds accepted by the interpreter are bounds Go "
+                "accepts), map stores/deletes (hashability), make (sign/order), plain calls (arity check => legal argument count); (2) `decide` "
+                "over facts REGENERATED from vm/*.go on every run: every operation that can panic whatever the guards (calling a function "
+                "value, close, type construction, sized allocation) sits under a deferred recover / on goRun's recovering goroutine / in the "
+                "func adapter, and the only `go` statements are goRun's. Search (child processes, Debug=false, rich environment incl. panicking "
+                "Go functions): programs over the whole grammar, byte/token mutations, statement soups, ~230 degenerate forms x 8 wrappers; "
+                "oracle: the call returns and the process survives; memory/stack exhaustion classified as excluded.",
+        "note": "Trusted: Lean kernel; Raw.* panic specification; extractor; process isolation. Completeness of the operation list is searched, not proved. "
+                "Follows fixes a3f46e9, 5661ee9, 4506a06, 7cfc410, 3d7d0a6, f126bce, 889efda, d412209, abcd5bd, 5fc010c.",
+        "technique": "Lean 4 proof (guards imply raw preconditions; decide over regenerated recover/go facts) + isolated generative search over the whole grammar",
+        "design_ref": "DESIGN.md section 6 (C01)",
     },
     "C11": {
         "text": "Machine-checked proofs (Lean 4) over a model of the conversion routine (sized integers, string, bool, interface{}, slices and "
